@@ -2,6 +2,7 @@ package mon
 
 import (
 	"fmt"
+	"reflect"
 	"strings"
 
 	"github.com/advancedclimatesystems/gonnx"
@@ -184,6 +185,100 @@ func RunOpReused(r OpReq, warm [][]*ref.T) Outcome {
 		phase = "apply"
 		return op.Apply(vin)
 	})
+}
+
+// RunOpUpdatedInPlace applies one operator instance twice to the SAME tensor
+// objects: first holding other values of the same shapes and types (the
+// request's values rotated by one element), then - after the caller has
+// overwritten the tensors' contents in place - holding the request's values.
+// The outcome of the second call is returned: what an operator computes may
+// depend on the current contents of its operands only, not on which objects
+// they are or what they held before.
+func RunOpUpdatedInPlace(r OpReq) (Outcome, bool) {
+	ins := make([]tensor.Tensor, len(r.Inputs))
+	touched := false
+	for i, in := range r.Inputs {
+		if in == nil {
+			continue
+		}
+		w := in.Clone()
+		if n := len(w.Bits); n > 1 {
+			first := w.Bits[0]
+			copy(w.Bits, w.Bits[1:])
+			w.Bits[n-1] = first
+			touched = true
+		}
+		ins[i] = ToTensor(w)
+	}
+	if !touched {
+		return Outcome{}, false
+	}
+	phase := "lookup"
+	o := Capture(&phase, func() ([]tensor.Tensor, error) {
+		op, err := opset13.GetOperator(r.Op)
+		if err != nil {
+			return nil, err
+		}
+		phase = "init"
+		node := &onnx.NodeProto{OpType: r.Op, Name: "n0", Attribute: r.Attrs, Output: r.outNames()}
+		for i := range r.Inputs {
+			if r.Inputs[i] == nil {
+				node.Input = append(node.Input, "")
+			} else {
+				node.Input = append(node.Input, fmt.Sprintf("i%d", i))
+			}
+		}
+		if err := op.Init(node); err != nil {
+			return nil, err
+		}
+		_ = Capture(nil, func() ([]tensor.Tensor, error) {
+			vin, err := op.ValidateInputs(ins)
+			if err != nil {
+				return nil, err
+			}
+			return op.Apply(vin)
+		})
+		// the caller overwrites the contents of its tensors
+		for i, in := range r.Inputs {
+			if in == nil || len(in.Bits) == 0 {
+				continue
+			}
+			if !Overwrite(ins[i], in) {
+				return nil, fmt.Errorf("harness: cannot overwrite operand %d in place", i)
+			}
+		}
+		phase = "validate"
+		vin, err := op.ValidateInputs(ins)
+		if err != nil {
+			return nil, err
+		}
+		phase = "apply"
+		return op.Apply(vin)
+	})
+	if o.Kind == Error && strings.HasPrefix(o.Err.Error(), "harness:") {
+		return o, false
+	}
+	return o, true
+}
+
+// Overwrite copies the values of v into the existing backing of t (same type,
+// same number of elements); false when t cannot be written that way.
+func Overwrite(t tensor.Tensor, v *ref.T) (ok bool) {
+	defer func() {
+		if recover() != nil {
+			ok = false
+		}
+	}()
+	src := reflect.ValueOf(backing(v))
+	if len(v.Shape) == 0 { // a scalar tensor has no slice to write into: set the element
+		return t.SetAt(src.Index(0).Interface()) == nil
+	}
+	dst := reflect.ValueOf(t.Data())
+	if dst.Kind() != reflect.Slice || dst.Len() != src.Len() || dst.Type() != src.Type() {
+		return false
+	}
+	reflect.Copy(dst, src)
+	return true
 }
 
 // SharedRunner executes requests through the operator API (a fresh operator
